@@ -100,6 +100,24 @@ std::vector<Pair> make_pairs(const ct::Op &op, size_t publen, Rng &r, bool thoro
         for (int i = 0; i < n; i++) { int j = (i + 1 + (int) r.below(6)) % 7; if (j == i) j = (i + 1) % 7; v.push_back(Pair{ scalar_const(i), scalar_const(j), "scalar-const" + std::to_string(i) + "-" + std::to_string(j) }); }
         Bytes a = rnd(32), b = rnd(32); a[31] &= 0x0f; b[31] &= 0x0f; a[0] |= 1; b[0] |= 1; v.push_back(Pair{ a, b, "random" });
         Bytes c = a; c[r.below(31)] ^= (uint8_t) (1u << r.below(8)); v.push_back(Pair{ a, c, "one-bit" });
+        // secrets chosen by a property of the (secret) RESULT: an encoding whose first byte is 0x01 / 0x00 resembles the identity for a
+        // test that short-circuits, the last byte carries the sign bit.  Found by search with the public base-point functions.
+        std::string nm = op.name;
+        if (nm.find("scalarmult_ed25519_base") != std::string::npos || nm.find("scalarmult_ristretto255_base") != std::string::npos) {
+            auto result_of = [&](const Bytes &s, Bytes &out) { out.assign(32, 0);
+                if (nm.find("ristretto") != std::string::npos) return crypto_scalarmult_ristretto255_base(out.data(), s.data()) == 0;
+                if (nm.find("noclamp") != std::string::npos) return crypto_scalarmult_ed25519_base_noclamp(out.data(), s.data()) == 0;
+                return crypto_scalarmult_ed25519_base(out.data(), s.data()) == 0; };
+            for (int target : { 0x01, 0x00 }) {
+                Bytes hit, miss, out;
+                for (int tries = 0; tries < 6000 && (hit.empty() || miss.empty()); tries++) {
+                    Bytes s = rnd(32); s[31] &= 0x0f; s[0] |= 1;
+                    if (!result_of(s, out)) continue;
+                    if (out[0] == target) { if (hit.empty()) hit = s; } else if (miss.empty()) miss = s;
+                }
+                if (!hit.empty() && !miss.empty()) v.push_back(Pair{ hit, miss, std::string("result-byte0-") + (target ? "01" : "00") + "-vs-other" });
+            }
+        }
         return v;
     }
     if (kind == "padpos") {          // marker position within the final 16-byte block
